@@ -25,19 +25,23 @@ CHECKS = {
  "C19": ("Option-returning accessors contain no panic site, FusedIterator / ExactSizeIterator obligations of the 4 iterators (no write before None, every yield advances the guarded field), next/size_hint total", "may-panic inventory restricted to the array API; field-write analysis of None paths; size_hint slice", "4/C19"),
 }
 SHARED = {
- "C01": "genotype classification (C08.a/b/e), samples-file parser (C09.d), per-record reset (C11.a/b)",
- "C02": "genotype classification (C08.a/b)",
+ "C01": "genotype classification (C08.a/b/c/e), samples-file parser (C09.d), per-record reset (C11.a/b), readers hand on the decoded columns (C10.e, C08.d)",
+ "C02": "genotype classification (C08.a/b/c), selection isolation and Error arm (C01.a, C08.f), precision plumbing (C01.d, C07.c/f, C17.f)",
+ "C03": "view's project step runs under its own option and its result is written (C13.a/b)",
+ "C04": "view's marginalize step and keep->complement (C13.a/b/d), view iterators (C19.b-d)",
  "C05": "text values printed as stored (C07.c), output files created-or-truncated (C07.g)",
- "C06": "interior-only summation and single result expressions (C14.d), factorial helpers (C02.g)",
- "C07": "accepted precision range (C17.f)",
- "C08": "per-record reset (C11.a/b)",
- "C09": "every selected sample of a record is examined (C01.b)",
- "C10": "every selected sample of a record is examined (C01.b), factorial helpers / pmf (C02.g)",
- "C12": "no short-count reads (C18.a)",
- "C13": "marginalize: validation, renumbering, Array::sum (C04.a/c/d), output files created-or-truncated (C07.g)",
- "C14": "Fst pairing and statistic result expressions (C06.e)",
- "C15": "reader input buffer untouched (C07.e), output files created-or-truncated (C07.g)",
+ "C06": "interior-only summation and single result expressions (C14.d), factorial helpers (C02.g), genotype classification (C08.a-c,e)",
+ "C07": "accepted precision range (C17.f), npy decoder table and writer (C15.a/d), view hands values on untouched (C13.a/b), text reader takes the whole body (C16.d)",
+ "C08": "per-record reset (C11.a/b), reader outcomes (C10.e)",
+ "C09": "every selected sample of a record is examined (C01.b), selection isolation and Error arm (C01.a, C08.f)",
+ "C10": "every selected sample of a record is examined (C01.b), factorial helpers / pmf (C02.g), projectable decision, complete-only, +1 once, precision, classification (C02.a/e, C01.b/c/d, C08.a-e)",
+ "C11": "reader outcomes (C10.e), one update per arm (C01.c, C10.a)",
+ "C12": "no short-count reads (C18.a), sibling readers: outcomes and reset (C10.e, C11.d)",
+ "C13": "marginalize: validation, renumbering, Array::sum (C04.a/c/d), output files created-or-truncated (C07.g), lossless hand-over (C07.c/f, C17.f, C15.a/d, C16.d), 2i+1 (C02.c)",
+ "C14": "Fst pairing and statistic result expressions (C06.e), estimator overrides and f-statistic terms (C06.b/e)",
+ "C15": "reader input buffer untouched (C07.e), output files created-or-truncated (C07.g), who may write stdout (C10.d), view writes what its steps produced (C13.a)",
  "C16": "reader input buffer untouched (C07.e)",
+ "C17": "guards behind reviewed reasons: marginalize (C04.a), project (C03.a/b), genotype classifier (C08.a/b/e)",
  "C18": "unusable records fail the run (C08.f)",
  "C19": "Array::sum accumulates every view (C04.d)",
 }
